@@ -36,9 +36,15 @@ pub fn sample_cfg(r: &mut Rng) -> EndpointCfg {
             1 => r.range(50_000, 1_000_000),
             _ => r.range(1_000_000, 4_000_000),
         };
-        c.max_packet_size = c.max_packet_size.min(c.max_receive_alloc);
+        // ... nor does what an endpoint sends have to fit what it is prepared to receive: in a
+        // quarter of these configurations max_packet_size stays above the endpoint's own
+        // max_receive_alloc (make_compatible() still fits it to the peer's)
+        let own_alloc_binds = !r.chance(0.25);
+        if own_alloc_binds {
+            c.max_packet_size = c.max_packet_size.min(c.max_receive_alloc);
+        }
         // the largest packet an endpoint sends need not be as large as what it can receive
-        if r.chance(0.4) {
+        if own_alloc_binds && r.chance(0.4) {
             c.max_packet_size = r.range(1500, c.max_packet_size.max(1501));
         }
     }
